@@ -65,8 +65,8 @@ def step (_u : Unit) (ws : List String) : Unit × Ans :=
       let m := vmapOfEntries tes
       let model :=
         match importBits m d clear with
-        | .ok (m', ch) => s!"ok changed={ch} v=" ++ showRanges m'.values
-        | .err e => "err:" ++ e.name ++ " v=" ++ showRanges m.values
+        | .ok (m', ch) => s!"ok changed={ch} v=" ++ showValues m'.values
+        | .err e => "err:" ++ e.name ++ " v=" ++ showValues m.values
         | .panic s => "panic:" ++ s
       let spec :=
         match unmarshal d with
